@@ -401,8 +401,11 @@ def variants(draw, program, feats=ALL_FEATS, x=None, p_fail=9):
             beh['outcomes'] = outs
             if k == 0 or draw(st.integers(0, 3)) == 0:
                 beh['tail'] = draw(st.sampled_from(outcomes_pool))
-        if 'falsy' in feats and 'label' not in beh and draw(st.integers(0, 11)) == 0:
-            beh['value'] = draw(st.sampled_from(['none', 'zero', 'empty', 'false', 'list']))
+        # None / falsy results matter most where the engine looks at a result to decide something: one-of candidates,
+        # switch cases, recurrent destinations, the output node
+        decisive = nid == program['output'] or nid in rec_max or any(role in ('cand', 'case') for _, _, _, role in cons[nid])
+        if 'falsy' in feats and 'label' not in beh and draw(st.integers(0, 4 if decisive else 11)) == 0:
+            beh['value'] = draw(st.sampled_from(['none', 'none', 'zero', 'empty', 'false', 'list']))
         if beh:
             var['nodes'][nid] = beh
     if 'fail' in feats and draw(st.integers(0, 3)) == 0:
